@@ -29,6 +29,7 @@ import Apko.Model.Cache
 import Apko.Model.Memo
 import Apko.Proofs.C08
 import Apko.Proofs.Lemmas.CacheStep
+import Apko.Generated.Cache
 
 set_option linter.unusedSimpArgs false
 
@@ -358,5 +359,54 @@ theorem coalescing_transparent {K V R : Type} [DecidableEq K] (f : K → V) (sto
     (hdone : q.done = some r) : r = p.eval f := by
   have h := C08.schedule_independent f store sched hist ps i p q r hp hq hdone
   rw [h, (C08.run_transparent f store p _ (C08.inv_empty f)).1]
+
+/-! ### ties: the call skeletons of the modelled Go functions, regenerated from /repo on every run
+
+Each list is the source-order sequence of durable calls of one function (`Point:x` is a
+`verifhook.Point("x …")` marker).  The model's programs mirror exactly these orders:
+`advertise` = Stat / Remove | Symlink; `indexOnline` = (get: Stat) MkdirAll, CreateTemp, mark 0, copy,
+mark 1, advertise, mark 2, Open; `pkgMiss` = MkdirTemp, mark 0, Next/Create …, `cachePackage`'s
+advertises in the order ctl, (sig), dat, tar with marks 5–8; `pkgData` = Open tar | Open gz, mark 9, … -/
+
+theorem tie_advertise : Generated.cache_advertiseCalls = ["os.Stat", "os.Remove", "os.Symlink"] := rfl
+
+theorem tie_retrieve : Generated.cache_retrieveCalls =
+    ["os.MkdirAll", "os.CreateTemp", "Point:index.tmp", "tmp.Close", "io.Copy", "Point:index.body",
+     "paths.AdvertiseCachedFile", "Point:index.adv"] := rfl
+
+theorem tie_get : Generated.cache_getCalls =
+    ["cacheFileFromEtag", "os.Stat", "t.retrieveAndSaveFile", "etagFromResponse", "cacheFileFromEtag"] := rfl
+
+theorem tie_fetchAndCache : Generated.cache_fetchAndCacheCalls = ["etagFromResponse", "os.Open"] := rfl
+
+theorem tie_fetchOffline : Generated.cache_fetchOfflineCalls = ["os.ReadDir", "os.Open"] ∧
+    Generated.cache_offlineNewestCond = "fi.ModTime().After(newest.ModTime())" := ⟨rfl, rfl⟩
+
+theorem tie_cachePackage : Generated.cache_cachePackageCalls =
+    ["Point:pkg.begin", "paths.AdvertiseCachedFile", "Point:pkg.ctl", "paths.AdvertiseCachedFile",
+     "Point:pkg.sig", "paths.AdvertiseCachedFile", "Point:pkg.dat", "paths.AdvertiseCachedFile",
+     "Point:pkg.tar", "exp.PackageData"] := rfl
+
+theorem tie_cachedPackage : Generated.cache_cachedPackageCalls =
+    ["os.Stat", "exp.ControlData", "os.Stat", "os.ReadFile", "os.Open", "a.datahash", "os.Stat",
+     "exp.PackageData"] := rfl
+
+theorem tie_expandPackage : Generated.cache_expandPackageCalls =
+    ["a.cachedPackage", "os.MkdirAll", "a.FetchPackage", "expandapk.ExpandApk", "a.cachePackage"] := rfl
+
+theorem tie_packageData : Generated.cache_packageDataCalls =
+    ["os.Open", "os.Open", "Point:regen.begin", "os.Create", "Point:regen.created", "io.CopyBuffer",
+     "uf.Close", "Point:regen.done", "os.Open"] := rfl
+
+theorem tie_expandApk : Generated.cache_expandApkCalls =
+    ["os.MkdirTemp", "Point:expand.dir", "sw.Next", "io.Copy", "os.Create", "Point:expand.tar",
+     "checkSums", "io.Copy", "bw.Flush", "tarfile.Close", "sw.CloseFile", "Point:expand.done",
+     "os.Stat", "expanded.ControlData", "expanded.PackageData"] := rfl
+
+theorem tie_next : Generated.cache_nextCalls =
+    ["w.CloseFile", "os.Open", "os.Create", "Point:expand.stream"] := rfl
+
+theorem tie_temp_patterns : Generated.cache_indexTempPattern = "*.tmp" ∧
+    Generated.cache_expandDirPattern = "expand-apk" := ⟨rfl, rfl⟩
 
 end Apko.C19
